@@ -35,6 +35,7 @@ class Spec:
         self.options = set()
         self.properties = []
         self.extra = {}
+        self.tolerate = collections.OrderedDict()   # name -> (regex on obligation description, reason)
 
     def loop(self, k):
         return self.loops.setdefault(k, {'invariant': collections.OrderedDict(), 'decreases': None, 'assigns': None})
@@ -97,6 +98,9 @@ def load_specs(directory):
                     sp.harness_post = val
                 elif opt == 'options':
                     sp.options = set(val.split())
+                elif opt.startswith('tolerate.'):
+                    rx, _, why = val.partition('::')
+                    sp.tolerate[opt[9:]] = (rx.strip(), why.strip())
                 elif opt == 'properties':
                     sp.properties = val.split()
                 elif re.match(r'^loop(\d+)\.', opt):
